@@ -173,6 +173,11 @@ func (pc *PolyCtx) Of(t *Term, memo map[int]*Poly) (*Poly, error) {
 			if err != nil {
 				return nil, err
 			}
+			if len(pc.bases) > 0 && len(p.coef) > 1 {
+				if p, err = pc.fold(p); err != nil {
+					return nil, err
+				}
+			}
 		}
 	case OMod:
 		x, e := pc.Of(t.args[0], memo)
